@@ -430,6 +430,52 @@ theorem accepted_removal_proposer_elected {env : OpsEnv} {proposer ts canon : Na
   | reject => rw [hg] at h; cases h
   | pass => exact electedIs_pass Mixin.Facts.ExpectedC29.remove_elected.1 hg
 
+/-! ## the time a snapshot is validated at does not depend on the local clock -/
+
+/-- **Every validator uses the snapshot's own timestamp** for any snapshot that carries one, and
+    for any snapshot of another node — whatever the local clock shows. (The clock only stands in
+    for the proposer's own snapshot before it has a timestamp.) -/
+theorem operation_time_is_snapshot_time (self clock snapNode snapTs : Nat) (h : snapTs ≠ 0 ∨ snapNode ≠ self) :
+    opTime self clock snapNode snapTs = snapTs := by
+  unfold opTime
+  rw [if_neg (by intro hc; rcases h with h | h; exact h hc.1; exact h hc.2)]
+
+theorem operation_time_own_unstamped (self clock : Nat) : opTime self clock self 0 = clock := by
+  simp [opTime]
+
+/-- **Two nodes with different clocks decide alike on the same timestamped snapshot**: every
+    node-operation validator (pledge, cancel, accept, remove and the custodian-update gates),
+    given the same store reads, returns the same decision (and leaves the same operation lock) on a
+    snapshot with a non-zero timestamp, for any two validating nodes and any two clocks —
+    including the proposer itself re-validating its own snapshot later. -/
+theorem decision_independent_of_clock (self₁ clock₁ self₂ clock₂ snapNode snapTs : Nat) (hts : snapTs ≠ 0)
+    (env : OpsEnv) (lock : Option OpLock) (fin : Bool) (tx : OpTx) (chain : ChainView) (round canon : Nat) (future : Bool) :
+    validatePledgeSnap self₁ clock₁ env lock snapNode snapTs fin tx = validatePledgeSnap self₂ clock₂ env lock snapNode snapTs fin tx ∧
+    validateCancelSnap self₁ clock₁ env lock snapNode snapTs fin tx = validateCancelSnap self₂ clock₂ env lock snapNode snapTs fin tx ∧
+    validateAcceptSnap self₁ clock₁ env chain round snapNode snapTs future fin canon tx =
+      validateAcceptSnap self₂ clock₂ env chain round snapNode snapTs future fin canon tx ∧
+    validateRemoveSnap self₁ clock₁ env snapNode snapTs fin canon tx = validateRemoveSnap self₂ clock₂ env snapNode snapTs fin canon tx ∧
+    pledgeGateSnap self₁ clock₁ env.hist env.epoch snapNode snapTs = pledgeGateSnap self₂ clock₂ env.hist env.epoch snapNode snapTs ∧
+    custodianGateSnap self₁ clock₁ env.hist env.epoch snapNode snapTs = custodianGateSnap self₂ clock₂ env.hist env.epoch snapNode snapTs := by
+  have h1 := operation_time_is_snapshot_time self₁ clock₁ snapNode snapTs (Or.inl hts)
+  have h2 := operation_time_is_snapshot_time self₂ clock₂ snapNode snapTs (Or.inl hts)
+  unfold validatePledgeSnap validateCancelSnap validateAcceptSnap validateRemoveSnap pledgeGateSnap custodianGateSnap
+  rw [h1, h2]
+  exact ⟨rfl, rfl, rfl, rfl, rfl, rfl⟩
+
+/-- … and so the acceptance theorems speak about the snapshot's timestamp: e.g. an accepted
+    pledge snapshot with a timestamp is in a pledge hour *of that timestamp* and its proposer is
+    the node elected *at that timestamp*, on every node. -/
+theorem accepted_pledge_snapshot_at_its_timestamp {self clock snapNode snapTs : Nat} (hts : snapTs ≠ 0)
+    {env : OpsEnv} {lock l : Option OpLock} {fin : Bool} {tx : OpTx}
+    (h : validatePledgeSnap self clock env lock snapNode snapTs fin tx = (.accept, l)) :
+    elect env.hist env.epoch Mixin.Facts.Gen.common_TransactionTypeNodePledge snapTs = .id snapNode ∧
+    pledgeHour env.epoch snapTs = true ∧ tx.amount = pledgeAmount := by
+  unfold validatePledgeSnap at h
+  rw [operation_time_is_snapshot_time self clock snapNode snapTs (Or.inl hts)] at h
+  have := accepted_pledge_amount_exact h
+  exact ⟨this.2.1, this.2.2.2.1, this.1⟩
+
 /-! ## non-vacuity: the model accepts concrete snapshots -/
 
 def opsHist : List Rec := (List.range 9).map (fun i => ⟨100 - i, i, 1000, .accepted⟩)
@@ -459,5 +505,8 @@ example : validateAccept pledgingEnv ⟨true, some (pledgingRec (tsAt 4 2)), fal
 example : validateAccept (pledgingEnvAt (tsAt 4 2 + 1)) ⟨true, some (pledgingRec (tsAt 4 2 + 1)), false⟩ 0 (tsAt 4 14) false false 78
     ⟨4545, 555, 50, 67, 8001, 200, 78⟩ = .reject := by decide
 example : (validateCancel pledgingEnv none (tsAt 4 15) false ⟨4646, 1, 50, 67, 8001, 200, 1⟩).1 = .accept := by decide
+
+/-- the proposer's own snapshot without a timestamp is the only case that looks at the clock -/
+example : opTime 7 123 7 0 = 123 ∧ opTime 7 123 7 55 = 55 ∧ opTime 7 123 8 0 = 0 := by decide
 
 end Mixin.C29
